@@ -58,6 +58,7 @@ def check_C15(rep, known):
 
 def check_C08(rep, known):
     scen_job(rep, 'ScenShoot', 'C08', [r'C08\.', r'build', r'varmap'], known)
+    mc_job(rep, 'MC_Dense', 'MC_Dense.cfg', workers=8)
 
 
 def check_C06(rep, known):
